@@ -264,6 +264,7 @@ func checkC17(c *Ctx) {
 	checkC17Sorter(c)
 	checkC17ReplacePosition(c)
 	checkC17CompilePurge(c)
+	checkC17SideWriters(c)
 
 	// ---- once / conflict / handlers ----
 	ro := c.Rule("C17.once", "sorter: a name enters the sorted list only when absent; the fallback precedes every successful return", 4)
